@@ -7,12 +7,14 @@
    PROVED below (partial): the vnode type for every tag form, and - attribute by attribute - that
    what the transform adds to the props object / merge arguments is exactly what the
    independent reading of the attribute in Spec/Site.v ([attr_spec]) says, and nothing else of
-   the element changes.  Not proved: the composition over a whole attribute list with
-   mergeProps on (grouping of repeated class/style/listeners by [dedupe_props]); that part is
-   covered by the oracle on real outputs. *)
+   the element changes; whole attribute lists with mergeProps off ([C01_element_props_no_merge])
+   and on ([C01_element_props_merge]: runs grouped by [dedupe_props], spreads as arguments of
+   their own, joined by mergeProps); the full statement on a fragment of the language.
+   Not proved: element-valued attributes and transformOn objects inside a list; they are covered
+   by the oracle on real outputs. *)
 From VJ Require Import Model.Str Model.Json Model.Ast Model.State Model.Util Model.Directive
   Model.Lower Spec.JsxText Spec.OutViews Spec.Site Spec.SiteCheck Lemmas.SiteProofs Lemmas.AttrsProofs Lemmas.ContribsProofs
-  Lemmas.ElementProofs.
+  Lemmas.MergeProofs Lemmas.ElementProofs.
 
 Definition C01_full_statement : Prop :=
   forall E el s, filter (starts_with (s_ "C01:")) (check_site E 40 el (fst (lower_el E el s))) = [].
@@ -91,6 +93,35 @@ Theorem C01_element_props_no_merge : forall E ic tag attrs s,
 Proof. exact contribs_refine. Qed.
 Print Assumptions C01_element_props_no_merge.
 
+(* the same under mergeProps (the default): each run of written attributes is one object whose
+   repeated class / style / listeners are grouped at their first occurrence ([dedupe_props] =
+   the spec's [group_contribs] up to flattening of nested arrays), each spread is an argument of
+   its own, the arguments are joined by Vue's mergeProps; a single argument is passed as is.
+   [merge_ok]: an attribute with a per-attribute refinement that denotes neither an element nor
+   a spread, or a written spread of a user expression. *)
+Theorem C01_element_props_merge : forall E ic tag attrs,
+  o_merge_props (e_opts E) = true -> forall s,
+  splice_vmodels attrs false = attrs ->
+  Forall (merge_ok E ic tag attrs) attrs -> attrs <> [] ->
+  exists args,
+    join_views (map nv args) = fst (fst (spec_attrs E ic tag attrs))
+    /\ Forall (arg_origin attrs) args
+    /\ r_attrs (transform_attrs E attrs ic s)
+       = match args with
+         | [] => Null
+         | [e] => e
+         | _ => mk_call (fst (import_from_vue "mergeProps" st0)) args
+         end.
+Proof. exact contribs_refine_merge. Qed.
+Print Assumptions C01_element_props_merge.
+
+(* one run: what dedupe_props leaves is the grouping the spec describes *)
+Theorem C01_dedupe_is_grouping : forall ps,
+  Forall no_elem_prop ps ->
+  map norm_contrib (map view_prop (dedupe_props ps)) = map norm_contrib (group_contribs (map view_prop ps)).
+Proof. exact dedupe_group. Qed.
+Print Assumptions C01_dedupe_is_grouping.
+
 (* non-vacuity: the hypotheses are met by ordinary attributes *)
 Example C01_nonvacuous :
   let name := JNs (IdName (s_ "xlink")) (IdName (s_ "href")) in
@@ -100,7 +131,7 @@ Example C01_nonvacuous :
   /\ attr_name_str name = s_ "xlink:href".
 Proof. vm_compute. repeat split. Qed.
 
-(* THE FULL STATEMENT, proved for a fragment of the language.  With mergeProps off: an element
+(* THE FULL STATEMENT, proved for a fragment of the language.  With mergeProps on or off: an element
    (of any nesting depth h) whose tag is an identifier / namespaced name / member expression,
    whose attributes each satisfy their per-attribute refinement ([attr_good]: plain attributes,
    spreads, runtime directives, v-html / v-text, v-model with a static argument, v-slots), has
@@ -109,12 +140,11 @@ Proof. vm_compute. repeat split. Qed.
    assignment target - to an expression on which the independent reading of Spec/SiteCheck.v
    has NO complaint at all: type, props in order, merge boundaries, directive bindings,
    children / slots (C01, C02, C03, C04, C05 and the order tag of C11 together).
-   Outside the fragment (mergeProps on, element-valued attributes, transformOn objects, a
+   Outside the fragment (element-valued attributes, transformOn objects, a
    computed v-model argument, a sole function / object child of an element host) the statement
    is decided by running the same [check_site] on the real output of every probe. *)
 Theorem C01_full_statement_on_fragment : forall E,
-  o_merge_props (e_opts E) = false ->
   forall h el, good E h el -> forall f s, (h <= f)%nat -> assign_left s = None ->
   check_site E f el (fst (lower_el E el s)) = [].
-Proof. intros E MP h el G f s LE Q. apply (element_refines E MP h el G f s LE Q). Qed.
+Proof. intros E h el G f s LE Q. apply (element_refines E h el G f s LE Q). Qed.
 Print Assumptions C01_full_statement_on_fragment.
